@@ -175,7 +175,7 @@ pub fn c09(tier: Tier) -> PropSpec {
                walk(ac[s], a) == eval(phi_s, a) for ALL assignments of support(phi_s) when <= 14 variables (other variables filled \
                pseudo-randomly), else 4000 sampled assignments; var_dependencies within the syntactic support; on from_parser, \
                hybrid_step_opt(false), from_biodivine and (with grounded values substituted, decided statements constant) hybrid_step(). \
-               Small ADFs (n<=7) and large ones (10..60 statements, depth <= 9, supports <= 12, a few <= 20). Non-trivial: \
+               Small ADFs (n<=7) and large ones (10..60 statements, depth <= 9, supports <= 12, a few <= 20; one sixth 61..110 statements). Non-trivial: \
                ADF with >= 10 statements or >= 50 nodes that contains an implication (polarity-asymmetric connective). \
                programs = ADFs, disagreements_checked = (statement, assignment) pairs compared.",
         assumptions: vec![
@@ -199,6 +199,7 @@ pub fn c09(tier: Tier) -> PropSpec {
                             prop_oneof![
                                 4 => gen::adf_large(10, 60, 10, 8),
                                 1 => gen::adf_large(10, 30, 18, 9),
+                                1 => gen::adf_large(61, 110, 6, 5),
                             ]
                             .boxed(),
                             LabelClass::Alnum,
@@ -236,9 +237,10 @@ fn answers(
     layout: &Layout,
     sort: Sort,
     backend: Backend,
+    reuse_parser: bool,
 ) -> Result<(Vec<(String, Vec<Interp>)>, Vec<String>, String), String> {
     let (text, _) = gen::render(acs, labels, layout);
-    let r = sut::with_parser(&text, sort, |p| -> Result<_, String> {
+    let r = sut::with_parser_opt(&text, sort, reuse_parser, |p| -> Result<_, String> {
         let names: Vec<String> = p.var_container().names().read().unwrap().clone();
         let perm = sut::perm_from_names(&names, labels)?;
         let mut a = build_native_like(p, backend);
@@ -290,8 +292,9 @@ fn answers(
 
 fn c10_check(c: &MetaCase, st: &mut Stats) -> CheckResult {
     let be = [Backend::Native, Backend::HybridPre, Backend::HybridNoPre][(c.backend % 3) as usize];
-    let (base, _, _) = answers(&c.acs, &c.base_labels, &c.base_layout, c.base_sort, be)?;
-    let (new, names, printed) = answers(&c.acs, &c.new_labels, &c.new_layout, c.new_sort, be)?;
+    let (base, _, _) = answers(&c.acs, &c.base_labels, &c.base_layout, c.base_sort, be, false)?;
+    // the second presentation re-uses its parser object: ADFs are built before AND after the re-sort
+    let (new, names, printed) = answers(&c.acs, &c.new_labels, &c.new_layout, c.new_sort, be, c.backend >= 3)?;
     // answers that were computed on both sides must agree (the lists can differ in which of the
     // expensive semantics were affordable only if the grounded interpretations differ - also a violation)
     if base.len() != new.len() {
@@ -404,7 +407,7 @@ fn meta_case(adfs: BoxedStrategy<Vec<F>>) -> BoxedStrategy<MetaCase> {
             c10_labels(n),
             gen::layout(n),
             prop_oneof![Just(Sort::None), Just(Sort::Lexi), Just(Sort::Alphanum)],
-            0u8..3,
+            0u8..6,
         )
     })
     .prop_map(
